@@ -416,6 +416,13 @@ pub fn verif_report_step(
     );
 }
 
+/// Verification hook (cfg `azure_guestproxyagent_verif` only): the monitor loop itself, so that a harness can run it
+/// under a paused tokio clock (the 15 second sleep between two polls then costs nothing).
+#[cfg(azure_guestproxyagent_verif)]
+pub async fn verif_monitor_thread() {
+    monitor_thread().await
+}
+
 fn extension_substatus(
     proxy_agent_aggregate_status_top_level: GuestProxyAgentAggregateStatus,
     proxyagent_file_version_in_extension: &String,
